@@ -166,6 +166,7 @@ Inductive c02_case :=
 (* HTTP/3: HEADERS frames, DATA frames as slices of the body, trailer fields *)
 | H3Case (is_head : bool) (body : bspec) (heads : list (bytes * list mfield))
          (parts : list (N * N)) (trailers : option (list mfield))
+         (short : option N)        (* Some k: the LAST part's DATA frame announces its length but only k bytes arrive, then FIN *)
          (has_body : bool) (m : mode) (pat : list N)
          (o_noresp : bool) (o_code : Z) (o_header : hmap) (o_cl : Z) (o_trailer : hmap) (o : obs_api)
          (o_interims : list (Z * hmap))
@@ -241,13 +242,17 @@ Definition c02_check (c : c02_case) : bool :=
                                 {| fd_data := slice bd off len; fd_pad := pad; fd_end := e |} end) frames in
       mux_matches ref (h2_exchange_after is_head hs fr trailers after m sizes) o_noresp o_code o_header o_cl o_trailer o &&
       (o_noresp || interims_eqb (h2_interim_heads hs) o_interims)
-  | H3Case is_head body heads parts trailers has_body m pat o_noresp o_code o_header o_cl o_trailer o o_interims =>
+  | H3Case is_head body heads parts trailers short has_body m pat o_noresp o_code o_header o_cl o_trailer o o_interims =>
       let bd := expand_body body in
       let ref := if has_body then bd else [] in
       let sizes := cycle_sizes (S (S (length bd))) pat in
       let hs := map (fun x => {| h3_status := fst x; h3_flds := snd x |}) heads in
       let ps := map (fun x => slice bd (fst x) (snd x)) parts in
-      mux_matches ref (h3_exchange is_head hs ps trailers m sizes) o_noresp o_code o_header o_cl o_trailer o &&
+      let evs := match short with
+                 | None => h3_events ps
+                 | Some k => h3_events_cut (removelast ps) (N.of_nat (length (last ps []))) (firstn (N.to_nat k) (last ps []))
+                 end in
+      mux_matches ref (h3_exchange_evs is_head hs evs trailers m sizes) o_noresp o_code o_header o_cl o_trailer o &&
       (o_noresp || interims_eqb (h3_interim_heads hs) o_interims)
   | H2GroupCase sched members =>
       let bodies := map member_body members in
